@@ -1,5 +1,7 @@
 package main
 
+import "strings"
+
 func init() {
 	props["C02"] = checkC02
 	props["C03"] = checkC03
@@ -151,9 +153,17 @@ func checkC06(r *Run) {
 	// R4
 	r.RequireOnSuccess("C06-R4", "visor.Visor.executeSignedBlockUnsafe",
 		req("block executed", "ok(iface:visor.Blockchainer.ExecuteBlock($0.blockchain, $1, $2))"),
-		req("its transactions removed from the pool", "ok(iface:visor.UnconfirmedTransactionPooler.RemoveTransactions($0.unconfirmed, $1, fold[acc=make([]cipher.SHA256, 0); append(acc, *)]))"),
+		req("its transactions (the hashes of exactly the block's transactions) removed from the pool", "ok(iface:visor.UnconfirmedTransactionPooler.RemoveTransactions($0.unconfirmed, $1, fold[acc=make([]cipher.SHA256, 0*); append(acc, [coin.Transaction.Hash($2.Block.Body.Transactions[i])])]))", "ok(iface:visor.UnconfirmedTransactionPooler.RemoveTransactions($0.unconfirmed, $1, make([]cipher.SHA256, len($2.Block.Body.Transactions))))"),
 		req("history updated", "ok(iface:visor.Historyer.ParseBlock($0.history, $1, $2.Block))"))
-	r.RequireStore("C06-R4", "visor.Visor.executeSignedBlockUnsafe", "the removed hashes are the hashes of the block's transactions", "local:varargs[0] := coin.Transaction.Hash($2.Block.Body.Transactions[i])")
+	// when the hash list is pre-sized and filled by index, every slot gets the hash of the transaction of the same index
+	if fn := r.P.Fn("visor.Visor.executeSignedBlockUnsafe"); fn != nil {
+		ff := r.P.Facts(fn)
+		for _, cs := range r.CallSites(fn, "iface:visor.UnconfirmedTransactionPooler.RemoveTransactions") {
+			if t := ff.Term(cs.Common().Args[len(cs.Common().Args)-1]); strings.HasPrefix(t, "make(") {
+				r.RequireStore("C06-R4", "visor.Visor.executeSignedBlockUnsafe", "slot i of the removed-hash list is the hash of the block's transaction i", t+"[i] := coin.Transaction.Hash($2.Block.Body.Transactions[i])")
+			}
+		}
+	}
 	// R5
 	hv := "iface:visor.Blockchainer.VerifySingleTxnHardConstraints($2, $1, *[i].Transaction, 1)"
 	r.RequireOnSuccess("C06-R5", "visor.UnconfirmedTransactionPool.RemoveInvalid",
